@@ -73,6 +73,7 @@ func c20Exec(run *ev.Run, c ev.Case) {
 		"period-enc":   "61s -> 0x41, 86400s -> 0xc1, 64 days -> 0xff",
 		"instance":     "0x5f system-relative, 0x60 device-relative",
 	}
+	run.Event("domains-enumerated", 1)
 	run.Sample(c.Kind, map[string]any{"domain": c.Kind, "example": examples[c.Kind], "params": string(c.P)})
 	switch c.Kind {
 	case "bcd":
